@@ -220,6 +220,39 @@ func registerMoreIntrinsics() {
 	}
 	// encoding/json.Decoder as an environment stub: Decode hands out the value the harness
 	// announced with zzverif.DecodesTo (the native run decodes the real bytes instead)
+	// encoding/json.Marshal (the DEFAULT InterfaceMarshalFunc) is outside the engine's reach; when
+	// it is reached at all (every harness installs its own marshal func) it yields `null`
+	in["encoding/json.Marshal"] = func(fr *frame, a []Value) Value {
+		x := fr.x
+		x.noteStub("encoding/json.Marshal -> null")
+		return Tuple{x.sliceOfBytes(x.strConst("null").b, 0), Iface{}}
+	}
+	in["encoding/json.NewEncoder"] = func(fr *frame, a []Value) Value {
+		var cell Value = Struct{a[0]} // remembers the destination writer
+		return &cell
+	}
+	in["(*encoding/json.Encoder).SetEscapeHTML"] = func(fr *frame, a []Value) Value { return nil }
+	in["(*encoding/json.Encoder).Encode"] = func(fr *frame, a []Value) Value {
+		x := fr.x
+		x.noteStub("encoding/json.Encoder.Encode -> null")
+		p, _ := a[0].(*Value)
+		if p == nil {
+			abortf("nil *json.Encoder")
+		}
+		w, ok := (*p).(Struct)[0].(Iface)
+		if !ok || w.t == nil {
+			abortf("json.Encoder without writer")
+		}
+		m := x.eng.prog.LookupMethod(w.t, nil, "Write")
+		if m == nil {
+			abortf("json.Encoder: no Write method on %v", w.t)
+		}
+		r := x.callSSA(fr, fr.curInstr, m, []Value{w.v, x.sliceOfBytes(x.strConst("null\n").b, 0)}, nil)
+		if t, ok := r.(Tuple); ok && len(t) == 2 {
+			return t[1]
+		}
+		return Iface{}
+	}
 	in["encoding/json.NewDecoder"] = func(fr *frame, a []Value) Value {
 		var cell Value = &Opaque{what: "json.Decoder"}
 		return &cell
